@@ -375,18 +375,23 @@ def _plan(ctx, deep):
             (convex, set(rng.choice(var_pool)), 4, True),
             (second, set(rng.choice(var_pool[:4])), 2, False),
         ]
-    plan = []
     names = ["tetrahedron", "octahedron", "cube1", "icosahedron", "lshape", "lshape-alt", "torus", "cube2",
              "union:tetrahedron+octahedron", "union:cube1+tetrahedron", "union:lshape+icosahedron", "cube3"]
-    for nm in names:
-        plan.append((nm, set(), 4, True))
-        k = 2 if not deep else 4
-        for v in rng.sample(var_pool, k):
-            plan.append((nm, set(v), 4, True))
     if deep:
-        plan.append(("union:torus+cube1", {"perturb", "relabel"}, 4, True))
-        plan.append(("cube4", {"perturb"}, 4, True))
-    return plan
+        plan = []
+        for nm in names + ["union:torus+cube1", "cube4"]:
+            plan.append((nm, set(), 4, True))
+            for v in rng.sample(var_pool, 4):
+                plan.append((nm, set(v), 4, True))
+        return plan
+    # thorough: every base mesh once on the full ladder (climbing on until 1e-6) with a random variant (or none), then
+    # further random variants up to (10,10) with the calibrated bound only; shuffled so that a budget cut is not
+    # systematic, but a non-trivial mesh comes first
+    full = [(nm, set(rng.choice(var_pool + [set(), set()])), 4, True) for nm in names]
+    rng.shuffle(full)
+    full.sort(key=lambda p_: 0 if p_[0] in ("lshape", "lshape-alt") else 1)
+    more = [(nm, set(rng.choice(var_pool)), 3, False) for nm in rng.sample(names, 8)]
+    return full + more
 
 
 def oracle(ctx, deep=False, cal=False, only=None):
@@ -405,10 +410,15 @@ def oracle(ctx, deep=False, cal=False, only=None):
     worst = {}      # (ident, rung) -> worst residual (non-constant functions)
     worst_const = {}
     reached, climbed = {}, {}
+    n_extra, max_extra = 0, (4 if not deep else 1000)
     edge_cov, vert_cov = set(), set()
     plan = _plan(ctx, deep)
     if only:
         plan = [p for p in plan if p[0] in only]
+    if os.environ.get("C01_FORCE_TOP"):      # calibration aid: climb to this rung index on every mesh
+        plan = [(n_, v_, int(os.environ["C01_FORCE_TOP"]), e_) for (n_, v_, t_, e_) in plan]
+    if os.environ.get("C01_NO_EXTRA"):
+        extra_idents = []
     done = 0
     try:
         for (name, variant, top, extend) in plan:
@@ -432,11 +442,12 @@ def oracle(ctx, deep=False, cal=False, only=None):
                                    mesh=mesh["desc"])
             spaces = dict(p1=api.function_space(grid, "P", 1), dp0=api.function_space(grid, "DP", 0))
             these = list(idents)
-            # the extra dual spaces of identity 1 cost two more JIT specialisations each: thorough / deep only, and only
-            # on the smaller meshes
-            if extra_idents and grid.number_of_elements <= 64:
+            # the extra dual spaces of identity 1 cost six more JIT specialisations and 6 more singular rule set-ups per
+            # rung: thorough / deep only, on a few of the small meshes
+            if extra_idents and grid.number_of_elements <= 30 and extend and n_extra < max_extra:
                 spaces["dp1"] = api.function_space(grid, "DP", 1)
                 these += extra_idents
+                n_extra += 1
             ec, vc = singular_case_coverage(grid)
             edge_cov |= ec
             vert_cov |= vc
@@ -487,29 +498,28 @@ def oracle(ctx, deep=False, cal=False, only=None):
                         and max(per_rung[i_][-1][0] for i_ in these) > TARGET):
                     last += 1
                 ri += 1
-            # criteria
+            # criteria (one counterexample per identity and kind of failure: the highest failing rung is reported)
             for ident in these:
                 seq = per_rung[ident]
                 lad = [s_[0] for s_ in seq]
-                for ri, (w, wdet) in enumerate(seq):
-                    reg, sing = LADDER[ri]
-                    if wdet is None:
+                nr = len(seq)
+                ok_idx = [ri for ri in range(nr) if seq[ri][1] is not None]
+                bad_bound = [ri for ri in ok_idx if seq[ri][0] > RUNG_BOUND[LADDER[ri]]]
+                bad_incr = [ri for ri in ok_idx if ri >= 1 and seq[ri][0] > FLOOR and seq[ri][0] > NONINCR * seq[ri - 1][0]]
+                bad_decay = [ri for ri in ok_idx if ri >= 2 and seq[ri][0] > FLOOR and seq[ri][0] > DECAY2 * seq[ri - 2][0]]
+                # (a mesh within the size limit has climbed to the end of LADDER when the target is still missed)
+                bad_top = (extend and nr - 1 >= TARGET_RUNG and seq[-1][1] is not None and seq[-1][0] > TARGET
+                           and grid.number_of_elements <= EXTEND_MAX_ELEMENTS)
+                for what, bad, bnd in (("rung-residual", bad_bound, lambda ri: RUNG_BOUND[LADDER[ri]]),
+                                       ("ladder-increasing", bad_incr, lambda ri: NONINCR * seq[ri - 1][0]),
+                                       ("ladder-not-decreasing", bad_decay, lambda ri: DECAY2 * seq[ri - 2][0]),
+                                       ("top-rung-residual", [nr - 1] if bad_top else [], lambda ri: TARGET)):
+                    if not bad:
                         continue
-                    lab, A, B, d, lhs, rhs = wdet
-                    if w > RUNG_BOUND[LADDER[ri]]:
-                        _report(res, mesh, ident, "rung-residual", reg, sing, w, RUNG_BOUND[LADDER[ri]], lab, A, B, c, d,
-                                lhs, rhs, ladder=lad)
-                    if (ri == len(seq) - 1 and extend and ri >= TARGET_RUNG and w > TARGET
-                            and grid.number_of_elements <= EXTEND_MAX_ELEMENTS):
-                        # (a mesh within the size limit has climbed to the end of LADDER when it gets here)
-                        _report(res, mesh, ident, "top-rung-residual", reg, sing, w, TARGET, lab, A, B, c, d, lhs, rhs,
-                                ladder=lad)
-                    if ri >= 1 and w > FLOOR and w > NONINCR * seq[ri - 1][0]:
-                        _report(res, mesh, ident, "ladder-increasing", reg, sing, w, NONINCR * seq[ri - 1][0], lab, A, B,
-                                c, d, lhs, rhs, ladder=lad)
-                    if ri >= 2 and w > FLOOR and w > DECAY2 * seq[ri - 2][0]:
-                        _report(res, mesh, ident, "ladder-not-decreasing", reg, sing, w, DECAY2 * seq[ri - 2][0], lab, A,
-                                B, c, d, lhs, rhs, ladder=lad)
+                    ri = bad[-1]
+                    lab, A, B, d, lhs, rhs = seq[ri][1]
+                    _report(res, mesh, ident, what, LADDER[ri][0], LADDER[ri][1], seq[ri][0], bnd(ri), lab, A, B, c, d,
+                            lhs, rhs, ladder=lad, failing=[list(LADDER[i]) for i in bad])
                 if len(seq) - 1 >= TARGET_RUNG:
                     reached[ident] = reached.get(ident, 0) + (1 if seq[-1][0] <= TARGET else 0)
                     climbed[ident] = max(climbed.get(ident, 0), len(seq) - 1)
@@ -547,7 +557,7 @@ _IDENT_KEY = {"I1/dp0": "calderon1-halfM+K=V-p1-dp0-dual-dp0", "I1/p1": "caldero
               "I1/dp1": "calderon1-halfM+K=V-p1-dp0-dual-dp1", "I2/p1": "calderon2-W=halfMt-Kt-p1-dp0-dual-p1"}
 
 
-def _report(res, mesh, ident, what, reg, sing, r, bound, lab, A, B, c, d, lhs, rhs, ladder=None):
+def _report(res, mesh, ident, what, reg, sing, r, bound, lab, A, B, c, d, lhs, rhs, ladder=None, failing=None):
     key = f"laplace-{_IDENT_KEY[ident]}-{mesh['family']}-{what}"
     if any(cx["key"] == key for cx in res.counterexamples) and len(res.counterexamples) > 40:
         return
@@ -557,6 +567,8 @@ def _report(res, mesh, ident, what, reg, sing, r, bound, lab, A, B, c, d, lhs, r
                relative_residual=r, bound=bound, worst_row=j, lhs_at_row=float(lhs[j]), rhs_at_row=float(rhs[j]))
     if ladder is not None:
         det["ladder"] = [float("%.3e" % x) for x in ladder]
+    if failing is not None:
+        det["failing_rungs"] = failing
     if mesh["E"].shape[1] <= 48:
         det["vertices"] = mesh["V"].tolist()
         det["elements"] = mesh["E"].tolist()
